@@ -229,6 +229,9 @@ ObsRes == LET E == EntriesOf(caps) IN
           {[q |-> q, acc |-> AccIn(E, q), b |-> {e.u : e \in BestIn(E, q)}] :
               q \in {q \in ReqsIn(E) : \A e \in BestIn(E, q) : e.t # "T"}}
 Obs == [res    |-> ObsRes,
-        byname |-> {<<r, n, ByName(r, n)>> : <<r, n>> \in Regions \X Names},
+        byname |-> {<<r, n, ByName(r, n), IF caps[r][n] = <<>> THEN "-" ELSE Head(caps[r][n]).t>> : <<r, n>> \in Regions \X Names},
+        \* ProxyStable as a probe in EVERY state (also right after a seed round trip): registering the
+        \* proxy-only cap again must hand out the URL of the first registration
+        proxy  |-> {<<r, OutRegisterProxy(r)>> : r \in {r \in Regions : caps[r]["ProxyP"] # <<>>}},
         temps  |-> {<<r, u, Live(r, u)>> : <<r, u>> \in {<<r, u>> \in Regions \X UNION {TempUrls(r) : r \in Regions} : u \in TempUrls(r)}}]
 =============================================================================
